@@ -62,7 +62,8 @@ def make_task(i, mode, a, b):
     elif mode in ("SPT", "LPT"):
         t.default_work_amount, t.remaining_work_amount = float(a), float(b)
     elif mode == "FIFO":
-        t.state_record_list = [BaseTaskState.READY] * a + [BaseTaskState.NONE, BaseTaskState.WORKING][:b]
+        # b == 2: the task started and was logged READY again afterwards (as at project-wide absence steps)
+        t.state_record_list = [BaseTaskState.READY] * a + ([BaseTaskState.NONE, BaseTaskState.WORKING][:b] if b < 2 else [BaseTaskState.WORKING] + [BaseTaskState.READY] * (2 - a % 2))
     elif mode in ("LRPT", "SRPT"):
         t.remaining_work_amount, t.default_work_amount = float(a), float(b)
     else:
@@ -210,7 +211,7 @@ def work_fac_wp(chunk):
                     col.violation(viol("C11:sort_facility_list-wrong-order:%s" % mode, {"mode": mode, "input(other skill, cost, target skill)": combo, "result_keys": keys}))
                 col.transitions.add(hash((kind, mode, combo, tuple(f.ID for f in res))))
         else:
-            alpha = [(cap, used, ts) for cap in (1.0, 2.0) for used in (0, 1) for ts in (None, 0, 1, 2)]
+            alpha = [(cap, used, ts) for cap in (1.0, 2.0) for used in (0, 1, 2) for ts in (None, 0, 1, 2)]  # (used 2 x 0.5 fills the workplace of capacity 1 exactly)
             for combo in itertools.product(alpha, repeat=n):
                 wps = []
                 for i, (cap, used, ts) in enumerate(combo):
